@@ -43,6 +43,8 @@ def run(prog, chk):
     attribute_hygiene(prog, chk)
     wiring(prog, chk)
     tspans(prog, chk)
+    from props import geomalg
+    geomalg.check(prog, chk, "C19", floor=28)
 
 
 def carriers(prog, chk):
